@@ -1,6 +1,6 @@
 (* C12 theory, part 10: the round trip.  write_all, then read_into, gives back every class under
    its source key with the same names, comments, fields, methods and parameters, up to insertion
-   order, constructors unnamed and parameters without source name; the same through a directory. *)
+   order and constructors unnamed (nothing else changes); the same through a directory. *)
 From FB Require Import C12.Model C12.TheoryTree C12.TheoryOrd C12.TheoryDet C12.TheoryPlace C12.TheoryTok
   C12.TheoryLines C12.TheoryRead C12.TheoryClass C12.TheoryForest C18.Theory.
 From Coq Require Import Lia Arith PeanoNat Permutation.
@@ -14,14 +14,37 @@ Definition enigma_okb (M : list class) : bool :=
   && forallb (fun c => Nat.leb (chain_depth M (cls_key c)) max_class_nesting) M
   && is_ok (files M).
 
-(* what a round trip may change: a constructor target name is not written, the format has no
-   place for a parameter's source name *)
-Definition norm_param (p : param) : param := mkParam (p_index p) [None; dst_of (p_names p)] (p_doc p).
+(* what a round trip may change — ONLY this: a method target name `<init>` is not written
+   (constructors are unnamed).  Everything else, parameters included, comes back as it was
+   (parameters have no first-namespace name by hypothesis param_okb). *)
 Definition norm_meth (m : meth) : meth :=
-  mkMeth (m_desc m) [Some (src_of (m_names m)); meth_dst m] (m_doc m) (map norm_param (m_params m)).
+  mkMeth (m_desc m) [Some (src_of (m_names m)); meth_dst m] (m_doc m) (m_params m).
 Definition norm_class (c : class) : class :=
   mkClass (c_names c) (c_doc c) (c_fields c) (map norm_meth (c_methods c)).
 Definition enigma_norm (M : list class) : list class := map norm_class M.
+
+(* the normaliser written out: the one thing it touches is the target cell of a method whose
+   target is `<init>` *)
+Lemma enigma_norm_spec M :
+  enigma_norm M =
+  map (fun c => mkClass (c_names c) (c_doc c) (c_fields c)
+         (map (fun m => mkMeth (m_desc m)
+                          [Some (src_of (m_names m));
+                           match dst_of (m_names m) with
+                           | Some d => if str_eqb d s_init then None else Some d
+                           | None => None
+                           end]
+                          (m_doc m) (m_params m)) (c_methods c))) M.
+Proof. reflexivity. Qed.
+
+(* on a two-cell names row it is the identity unless the target is `<init>` *)
+Lemma norm_meth_id m : row2 (m_names m) = true -> dst_of (m_names m) <> Some s_init -> norm_meth m = m.
+Proof.
+  destruct m as [desc nm doc ps]. unfold norm_meth, meth_dst, row2. cbn [m_names m_desc m_doc m_params].
+  destruct nm as [|[a|] [|b [|? ?]]]; try discriminate. intros _ H. cbn [src_of dst_of nth] in *.
+  destruct b as [d|]; [|reflexivity]. destruct (str_eqb d s_init) eqn:E; [|reflexivity].
+  apply str_eqb_eq in E. subst d. exfalso. apply H. reflexivity.
+Qed.
 
 Lemma enigma_ok_set M : enigma_okb M = true ->
   set_ok M /\ (forall c, In c M -> (chain_depth M (cls_key c) <= max_class_nesting)%nat) /\ exists fs, files M = Ok fs.
@@ -160,9 +183,10 @@ Proof.
   destruct nm as [|[a|] [|b [|? ?]]]; try discriminate. reflexivity.
 Qed.
 
-Lemma rb_param_norm p : param_okb p = true -> rb_param p = norm_param p.
+Lemma rb_param_id p : param_okb p = true -> rb_param p = p.
 Proof.
-  intros H. destruct (param_dst p H) as (d & Hd & _). unfold rb_param, norm_param, pdst. rewrite Hd. reflexivity.
+  intros H. destruct (param_dst p H) as (d & Hd & Hn & _). unfold rb_param, pdst. rewrite Hd, <- Hn.
+  destruct p; reflexivity.
 Qed.
 
 Lemma map_ext_in' {A B} (f g : A -> B) l : (forall x, In x l -> f x = g x) -> map f l = map g l.
@@ -172,9 +196,8 @@ Lemma rb_meth_sim m : meth_okb m = true -> meth_sim (rb_meth m) (norm_meth m).
 Proof.
   unfold meth_okb. intros H. split_ands H. unfold rb_meth, norm_meth, meth_sim. cbn [m_desc m_names m_doc m_params].
   repeat split; try reflexivity.
-  rewrite <- (map_ext_in' rb_param norm_param).
-  - apply Permutation_map. apply isort_perm.
-  - intros p Hp. apply rb_param_norm. rewrite forallb_forall in H1. apply H1. exact Hp.
+  rewrite (map_ext_in' rb_param (fun p => p)), map_id; [apply isort_perm|].
+  intros p Hp. apply rb_param_id. apply isort_in in Hp. rewrite forallb_forall in H1. apply H1. exact Hp.
 Qed.
 
 Lemma rb_class_sim c : class_okb c = true -> class_sim (rb_class c) (norm_class c).
